@@ -295,6 +295,10 @@ func runBuilder(r *vt.Run, t vt.TB, s spec) {
 			return db.PKSelect("t", sqlittle.Key{rid}, emit, cols...)
 		}))
 	}
+	// the catalogue itself (the master table of generated images can span
+	// several pages): a list cut short is rows omitted
+	ops = append(ops, op{name: ".Tables()", run: func(d *sdb.Database) ([]string, error) { return d.Tables() }})
+	ops = append(ops, op{name: ".Indexes()", run: func(d *sdb.Database) ([]string, error) { return d.Indexes() }})
 	ops = append(ops, op{name: ".Table.Scan(t)", run: func(d *sdb.Database) ([]string, error) {
 		tab, err := d.Table("t")
 		if err != nil {
